@@ -813,3 +813,8 @@ MUTATIONS += [
     # the listing with sizes reports directories and other non-regular entries whose name is an id
     dict(id="C20-local-list-reports-non-files", prop="C20", file=LB13, old="            if !entry.file_type().is_file() {\n                return None;\n            }\n            let name = entry.file_name().to_string_lossy();\n            let id = Id::parse_some(&name, tpe)?;\n            let length", new="            let name = entry.file_name().to_string_lossy();\n            let id = Id::parse_some(&name, tpe)?;\n            let length"),
 ]
+
+MUTATIONS += [
+    # the plain listing reports directories whose name is an id
+    dict(id="C20-local-list-ids-reports-non-files", prop="C20", file=LB13, old="                if !entry.file_type().is_file() {\n                    return None;\n                }\n                let name = entry.file_name().to_string_lossy();\n                Id::parse_some(&name, tpe)", new="                let name = entry.file_name().to_string_lossy();\n                Id::parse_some(&name, tpe)"),
+]
